@@ -2327,3 +2327,186 @@ def r7_20_partial_word_read_needs_partial_word(ck, P, rid='C04-R20'):
                 ck.violation(R, fn, 'partial-word read without its guard (%s)' % _w(u), '%s reads the bitmap at %d places, none of them under the test (width & 31) != 0: the read that follows the full-word loop of each row is made also when the row has no partial word, i.e. one word past the row - past the bitmap for the last row' % (fn, len(loads)), loads[-1].loc())
     if n == 0:
         raise AnalysisBroken('%s: no bitmap import found in the region units' % rid)
+
+
+def r7_21_box_coordinates_computed_per_box(ck, P, rid='C07-R21'):
+    """T-DEP (memoryless loop): translate rewrites the rectangle list in place, reading box i and writing box i' <= i.  A coordinate written
+    for a box is computed from that box's own fields in the same iteration; a value carried over from the previous iteration (the
+    vertical part 'of the same band') was computed from a neighbour whose stored fields may already have been translated."""
+    R = ck.rule(rid, 'in the translate functions of both region widths no value stored into a rectangle coordinate is loop-carried: following the stored value back through merges never returns to a merge it has already passed (a phi of the box loop); each box gets the sum of its own field and the amount', floor=8)
+    n = 0
+    for u in units(P):
+        for fn, f in sorted(u.functions.items()):
+            if not fn.endswith('_translate'):
+                continue
+            for x in f.insts():
+                if x.op != 'store':
+                    continue
+                lf = f.last_field(f.path(x.a[1])) or ''
+                if not lf.startswith(('pixman_box16.', 'pixman_box32.')) or x.a[0][0] != 'v':
+                    continue
+                n += 1; ck.saw(f)
+                # search for a phi cycle in the value's slice (through casts and phis only)
+                carried = None
+                work = [(x.a[0], ())]
+                guard = 0
+                while work and carried is None and guard < 400:
+                    guard += 1
+                    o, trail = work.pop()
+                    y = f.v(f.strip_casts(o)) if o[0] == 'v' else None
+                    if y is None or y.op != 'phi':
+                        continue
+                    if y.i in trail:
+                        carried = y; break
+                    for a in y.a:
+                        if a[0] == 'v':
+                            work.append((a, trail + (y.i,)))
+                where = '%s (%s): %s stored at %s' % (fn, u.name, lf, x.loc())
+                if carried is None:
+                    ck.ok(R, where, 'computed for this box')
+                else:
+                    ck.violation(R, fn, 'loop-carried coordinate (%s)' % _w(u), '%s stores into %s (%s) a value that is carried round the box loop (merge at %s) instead of being computed from the box at hand: the list is rewritten in place, so "same band as the previous box" is judged on fields that may already hold translated values, and a band whose original y1 equals the previous band\'s translated y1 gets the previous band\'s rows' % (fn, lf, x.loc(), carried.loc()), x.loc())
+    if n == 0:
+        raise AnalysisBroken('%s: no coordinate store found in the translate functions' % rid)
+
+
+def r5_14_extents_cover_only_for_single_rectangles(ck, P, rid='C05-R14'):
+    """Belief rule made explicit: 'A's extents contain B's extents' says that A covers B only when A *is* its extents, a single rectangle
+    (A->data == NULL).  The shortcuts of union and intersect test exactly that region for being a single rectangle; a shortcut that tests
+    the contained one instead (or none) takes the bounding box of a region with holes for the region."""
+    R = ck.rule(rid, 'wherever a region function acts under the four comparisons "the extents of region A contain the extents of region B" (both extents fields of two different region parameters), the same path has found A->data == NULL: subtracting a frame-shaped S from a rectangle M that lies inside S\'s bounding box is not empty although S\'s extents subsume M', floor=4)
+    n = 0
+    for u in units(P):
+        reg = _reg(u)
+        for fn, f in sorted(u.functions.items()):
+            done = set()
+            # facts are collected per branch edge (what guards the branching block, plus the edge itself): a shortcut written as
+            # `a == b || (single && subsumes)` joins its two reasons in the acting block, which neither of them dominates
+            edge_sets = []
+            for b0 in f.blocks:
+                t0 = b0.term
+                if t0.op == 'br' and t0.a and len(set(t0.d['succ'])) == 2:
+                    for s0 in set(t0.d['succ']):
+                        edge_sets.append((b0, set(f.guard_edges(b0.id)) | {(t0, s0)}))
+            for b, ge in edge_sets:
+                cont = {}
+                for t, s in ge:
+                    if t.op != 'br' or not t.a:
+                        continue
+                    c, p, ops = f.cond(t.a[0])
+                    if c is None or c.op != 'icmp' or len(ops) != 2 or p not in ('sle', 'sge', 'slt', 'sgt'):
+                        continue
+                    eff = p if t.d['succ'][0] == s else f.INV.get(p, p)
+                    ys = [f.v(f.strip_casts(o)) if o[0] == 'v' else None for o in ops]
+                    if any(y is None or y.op != 'load' for y in ys):
+                        continue
+                    pas = [f.path(y.a[0]) for y in ys]
+                    fl = [f.last_field(pa) or '' for pa in pas]
+                    if not all(x_.startswith(('pixman_box16.', 'pixman_box32.')) for x_ in fl) or fl[0].split('.')[1] != fl[1].split('.')[1]:
+                        continue
+                    if not all((reg + '.extents') in pa[1] for pa in pas):
+                        continue
+                    r0, r1 = f.root(pas[0]), f.root(pas[1])
+                    if r0 == r1 or r0[0] != 'arg' or r1[0] != 'arg':
+                        continue
+                    k = fl[0].split('.')[1]
+                    # ops[0] (eff) ops[1]
+                    if k in ('x1', 'y1'):
+                        A = r0 if eff in ('sle', 'slt') else r1
+                    else:
+                        A = r0 if eff in ('sge', 'sgt') else r1
+                    Bk = r1 if A == r0 else r0
+                    cont.setdefault((A, Bk), set()).add(k)
+                for (A, Bk), ks in cont.items():
+                    if ks != {'x1', 'y1', 'x2', 'y2'} or (fn, A, Bk) in done:
+                        continue
+                    done.add((fn, A, Bk))
+                    n += 1; ck.saw(f)
+                    single = False
+                    for t, s in ge:
+                        if t.op != 'br' or not t.a:
+                            continue
+                        c, p, ops = f.cond(t.a[0])
+                        if c is None or c.op != 'icmp' or p not in ('eq', 'ne') or not any(o[0] == 'n' for o in (ops or [])):
+                            continue
+                        if (p == 'eq') != (t.d['succ'][0] == s):
+                            continue
+                        for o in ops:
+                            y = f.v(f.strip_casts(o)) if o[0] == 'v' else None
+                            if y is not None and y.op == 'load' and f.last_field(f.path(y.a[0])) == reg + '.data' and f.root(f.path(y.a[0])) == A:
+                                single = True
+                    where = '%s (%s): extents of %s contain extents of %s' % (fn, u.name, f.params[A[1]][0], f.params[Bk[1]][0])
+                    if single:
+                        ck.ok(R, where, 'and %s is a single rectangle' % f.params[A[1]][0])
+                    else:
+                        ck.violation(R, fn, 'extents containment taken for coverage (%s)' % _w(u), '%s acts on "the extents of %s contain the extents of %s" (block at %s) without having established that %s is a single rectangle (%s->data == NULL): a region with several rectangles does not cover its bounding box, so what lies in the gaps is lost' % (fn, f.params[A[1]][0], f.params[Bk[1]][0], b.term.loc(), f.params[A[1]][0], f.params[A[1]][0]), b.term.loc())
+    if n == 0:
+        raise AnalysisBroken('%s: no extents-containment shortcut found in the region units' % rid)
+
+
+def r5_15_extents_never_assigned_without_data(ck, P, rid='C05-R15'):
+    """Representation invariant: a region is (extents, data) - data == NULL says 'exactly the extents', anything else is the rectangle list.
+    Code outside the region implementation that assigns a region's extents fields directly has to settle its data as well (store it, or
+    hand the region to a region function) before it returns; otherwise the new extents come with whatever list the object held before."""
+    R = ck.rule(rid, 'outside pixman-region16.c / pixman-region32.c, every path from a direct store into the extents of a region reached through a pointer parameter to a return passes a store into the same region\'s data field or a call that receives that region: the 32-to-16-bit conversion that writes the extents of a single-rectangle result and returns leaves the rectangle list of the previous request in place - three rectangles reported where there is one, lying outside the clip', floor=4)
+    n = 0; seen_any = False
+    for f in P.functions():
+        if f.unit.name in ('pixman-region16.c', 'pixman-region32.c'):
+            continue
+        for x in f.insts():
+            if x.op != 'store':
+                continue
+            pa = f.path(x.a[1])
+            if f.root(pa)[0] != 'arg' or not any(isinstance(st, str) and st.endswith('.extents') for st in pa[1]):
+                continue
+            seen_any = True
+            root = f.root(pa)
+            n += 1; ck.saw(f)
+            def settles(q):
+                if q.op == 'store':
+                    qa = f.path(q.a[1])
+                    return f.root(qa) == root and (f.last_field(qa) or '').endswith('.data')
+                if q.op == 'call':
+                    return any(a and a[0] in ('v', 'a') and root in common.roots(f, a) for a in q.a)
+                return False
+            hit = f.reach_avoiding(x, settles, lambda q: q.op == 'ret')
+            if hit is not None and any(q.op == 'store' and settles(q) and f.dominates(q, x) for q in f.insts()):
+                hit = None          # the function has already given the region its data on every path to this store
+            where = '%s: extents of %s assigned at %s' % (f.name, f.params[root[1]][0], x.loc())
+            if hit is None:
+                ck.ok(R, where, 'data settled before the return')
+            else:
+                ck.violation(R, f.name, 'extents assigned, data left as it was', '%s stores into the extents of the region %s (%s) and can return without storing its data field or handing it to a region function: the object keeps the rectangle list (and the allocation) it had before, so its rectangles no longer have anything to do with its extents' % (f.name, f.params[root[1]][0], x.loc()), x.loc())
+    # zero instances on the unchanged tree is the expected state (no such direct assignment exists); the positive example is the
+    # seeded change seeded/C03-27, which the thorough tier applies on every run
+    R_ = ck.rules[rid]
+    if n == 0:
+        ck.ok(R, 'no direct assignment of region extents outside the region implementation')
+
+
+def r7_22_bitmap_read_word_by_word(ck, P, rid='C07-R22'):
+    """Who-may-read: the bitmap import decides every bit of the image; it reads the image through its own word loads (READ), which see
+    every bit of every word up to the width.  A library routine that is handed the bitmap (memcmp of two rows 'to skip a repeated
+    scanline') compares whole bytes: the last width & 7 pixels of a row are not looked at, and rows that differ only there are taken for
+    equal."""
+    R = ck.rule(rid, 'in the bitmap import of both region widths no call receives a pointer derived from the image\'s pixel data (pixman_image_get_data): every bit of the bitmap reaches the region through the function\'s own loads', floor=2)
+    n = 0
+    for u in units(P):
+        for fn, f in sorted(u.functions.items()):
+            if not list(f.calls('pixman_image_get_data')):
+                continue
+            n += 1; ck.saw(f)
+            bad = None
+            for c in f.calls():
+                if isinstance(c.callee, str) and c.callee in ('pixman_image_get_data',):
+                    continue
+                for a in c.a:
+                    if a and a[0] == 'v' and any(r[0] == 'call' and r[1] == 'pixman_image_get_data' for r in common.roots(f, a)):
+                        bad = c
+            where = '%s (%s)' % (fn, u.name)
+            if bad is None:
+                ck.ok(R, where, 'reads the bitmap itself')
+            else:
+                ck.violation(R, fn, 'bitmap handed to a library routine (%s)' % _w(u), '%s passes a pointer into the bitmap to %s (%s): whatever that routine concludes about the rows is concluded from whole bytes (or words), not from the width pixels the image has, and the region no longer holds exactly the set bits' % (fn, bad.callee, bad.loc()), bad.loc())
+    if n == 0:
+        raise AnalysisBroken('%s: no bitmap import found' % rid)
